@@ -1,8 +1,8 @@
 ----------------------------- MODULE MC_Duration -----------------------------
 EXTENDS DurationMachine, MC_Duration_sets, TLC, Json
 NoCands == {}
-MCRoundOpts == {o \in [lg : {"day", "hour", "minute", "second", "nanosecond"}, sm : {"day", "hour", "minute", "second", "millisecond", "nanosecond"}, inc : {1, 2, 3, 5, 8, 30}, mode : {"halfExpand", "ceil", "floor", "trunc", "halfEven", "halfTrunc"}] :
-                  /\ UnitLe(o.sm, o.lg)
+MCRoundOpts == {o \in [lg : {"day", "hour", "minute", "second", "nanosecond", "absent"}, sm : {"day", "hour", "minute", "second", "millisecond", "nanosecond"}, inc : {1, 2, 3, 5, 8, 30}, mode : {"halfExpand", "ceil", "floor", "trunc", "halfEven", "halfTrunc"}] :
+                  /\ (o.lg = "absent" \/ UnitLe(o.sm, o.lg)) /\ (o.lg = "absent" => o.mode \in {"halfExpand", "trunc"})
                   /\ (o.sm = "hour" => o.inc \in {1, 2, 3, 8}) /\ (o.sm = "day" => o.inc \in {1, 2, 5})
                   \* (8 h: three multiples a day - the parity of a multiple differs between the day and the total)
                   /\ (o.inc \in {3, 8} => o.sm = "hour")
@@ -19,7 +19,8 @@ CaseOf ==
     [] last.op = "timeInRange" -> [op |-> "Duration.timeInRange", cls |-> IF last.out.val THEN "balanced" ELSE "unbalanced", args |-> [recv |-> last.a], out |-> last.out]
     [] last.op \in {"negated", "abs", "sign"} -> [op |-> "Duration." \o last.op, cls |-> Cls, args |-> [recv |-> last.a], out |-> last.out]
     [] last.op \in {"add", "subtract", "compare"} -> [op |-> "Duration." \o last.op, cls |-> Cls, args |-> [recv |-> last.a, other |-> last.b], out |-> last.out]
-    [] last.op = "round" -> [op |-> "Duration.round", cls |-> Cls, args |-> [recv |-> last.a, st |-> [largest |-> last.o.lg, smallest |-> last.o.sm, inc |-> last.o.inc, mode |-> last.o.mode]], out |-> last.out]
+    [] last.op = "round" -> [op |-> "Duration.round", cls |-> Cls, args |-> [recv |-> last.a, st |-> IF last.o.lg = "absent" THEN [smallest |-> last.o.sm, inc |-> last.o.inc, mode |-> last.o.mode]
+                                                                   ELSE [largest |-> last.o.lg, smallest |-> last.o.sm, inc |-> last.o.inc, mode |-> last.o.mode]], out |-> last.out]
     [] last.op = "total" -> [op |-> "Duration.total", cls |-> Cls, args |-> [recv |-> last.a, unit |-> last.u],
                              out |-> IF last.out.kind = "ok" THEN [kind |-> "ratio", n |-> last.out.val.n, d |-> last.out.val.d] ELSE last.out]
 Emit == last.op = "none" \/ PrintT("CASE " \o ToJson(CaseOf))
